@@ -303,7 +303,7 @@ def run_e2e(cases, pf, template, charset, workdir):
         if not is_format_tag(name):
             continue
         text = str(extra[0]) if extra else ''
-        m = re.match(r"msgid 'm(\d+) ", text)
+        m = re.match(r"""msgid ['"]m(\d+) """, text)
         if m is None:
             stray.append(name)
             continue
@@ -311,12 +311,12 @@ def run_e2e(cases, pf, template, charset, workdir):
     outs = ['ok ' + canon_tags(per[j]) for j in range(len(cases))]
     if stray:
         outs[0] += ';STRAY:' + ','.join(stray)
-    return outs, calls
+    return outs, per
 
 def encode_e2e(case, pf):
     c = dict(case)
     c['range'] = effective_range(case['range'])
-    pre = 'N' if pf is None or case['template'] is None else 'H:' + H.hexs(pf)
+    pre = 'N' if pf is None else 'H:' + H.hexs(pf)
     return encode(c, pre=pre)
 
 # ----------------------------------------------------------------------------------------------- the reference (falsifier)
@@ -404,25 +404,24 @@ def ref_of(kind, s):
         return empty_ref(kind)
     return s['ref']
 
-def selected(case, pf_info, i):
+def selected(case, pf_info, i, e2e):
     """the n in the window [0, 200) restricted by the range flag for which form i is selected, in increasing order;
-    None when unknown to the reference (declaration outside the reference's domain)"""
-    if case['pf'] is None and pf_info is None:
+    'no-plural-checks' when there is no preimage at all, 'skip-form' when the form index has no entry"""
+    if not e2e:
         pre = case['preimage']
         if not pre:
             return 'no-plural-checks'
         if i not in pre:
             return 'skip-form'
         base = list(pre[i])
+        rg = case['range']
     else:
         if pf_info is None:
             return 'no-plural-checks'
-        if pf_info == 'unknown':
-            return None
         base = pf_info.get(i)
         if base is None:
             return 'skip-form'
-    rg = case['range'] if (case['pf'] is None and pf_info is None) else effective_range(case['range'])
+        rg = effective_range(case['range'])
     lo, hi = (0, 1e999) if rg is None else rg
     return [n for n in base if lo <= n <= hi]
 
@@ -481,7 +480,7 @@ def group_tags(calls, kind):
         args[dst].append((name, canon))
     return errors, args
 
-def check_case(case, calls, out, pf_info=None):
+def check_case(case, calls, out, pf_info=None, e2e=False):
     """the property on one observed run; returns a replay dict or None.  Only single-kind messages inside the statement's domain."""
     kind = case['primary']
     if case['formats'] != [kind]:
@@ -502,6 +501,11 @@ def check_case(case, calls, out, pf_info=None):
     if case['template'] or case['fuzzy'] or not case['encoding']:
         return None
     msgid, plural = case['msgid'], case['msgid_plural']
+    strings = [msgid, case['msgstr']] + ([plural] if plural is not None else []) + list(case['msgstr_plural'].values())
+    if any(s['ref'] == 'unknown' for s in strings):
+        return None
+    if e2e and plural is not None and pf_info == 'unknown':
+        return None
     if msgid['ref'] is None or (plural is not None and plural['ref'] is None):
         return None
     errors, args = group_tags(calls, kind)
@@ -511,9 +515,7 @@ def check_case(case, calls, out, pf_info=None):
         pairs.append(('msgstr', case['msgstr'], 'msgid', ref_of(kind, msgid), False))
     if plural is not None and any(s['text'] for s in case['msgstr_plural'].values()):
         for i, s in sorted(case['msgstr_plural'].items()):
-            sel = selected(case, pf_info, i)
-            if sel is None:
-                return None
+            sel = selected(case, pf_info, i, e2e)
             if sel == 'no-plural-checks':
                 break
             if sel == 'skip-form':
@@ -555,3 +557,58 @@ def check_case(case, calls, out, pf_info=None):
     if extra:
         return replay('argument-tags-for-unchecked-destination', tags={str(k): v for k, v in extra.items()})
     return None
+
+
+# ----------------------------------------------------------------------------------------------- corpus, distribution
+
+def corpus_cases():
+    """recorded cases (corpus/C14/*.json): always run first; strings without reference signature (only crashes and the
+    correspondence are checked on them)"""
+    import json
+    d = os.path.join(common.VERIF, 'corpus', 'C14')
+    out = []
+    if not os.path.isdir(d):
+        return out
+    mk = lambda t: {'text': t, 'ref': 'unknown', 'how': 'corpus'}
+    for f in sorted(os.listdir(d)):
+        if not f.endswith('.json'):
+            continue
+        for j in json.load(open(os.path.join(d, f), encoding='utf-8')):
+            fmts = j['formats']
+            prim = next((x for x in fmts if x in G.KINDS), G.KINDS[0])
+            pre = j.get('preimage')
+            out.append({'primary': prim, 'formats': fmts, 'msgctxt': j.get('msgctxt'), 'template': j.get('template', False),
+                        'encoding': j.get('encoding', True), 'fuzzy': j.get('fuzzy', False),
+                        'range': tuple(j['range']) if j.get('range') else None,
+                        'msgid': mk(j['msgid']), 'msgid_plural': mk(j['msgid_plural']) if j.get('msgid_plural') is not None else None,
+                        'msgstr': mk(j.get('msgstr', '')) if j.get('msgstr') else dict(EMPTY),
+                        'msgstr_plural': {int(i): mk(t) for i, t in j.get('msgstr_plural', {}).items()},
+                        'preimage': {int(k): v for k, v in pre.items()} if pre is not None else None, 'pf': None})
+    return out
+
+def classify(case):
+    """keys for the input-distribution histogram"""
+    keys = ['how:' + s['how'] for s in [case['msgstr']] + list(case['msgstr_plural'].values()) if s['how'] not in ('empty',)]
+    if case['msgid_plural'] is not None and case['preimage']:
+        for i in case['msgstr_plural']:
+            sel = selected(case, None, i, False)
+            if isinstance(sel, str):
+                keys.append('selected:' + sel)
+            elif sel == [1]:
+                keys.append('selected:[1]')
+            elif len(sel) == 0:
+                keys.append('selected:none')
+            elif len(sel) == 1:
+                keys.append('selected:single')
+            elif len(sel) == 2 and sel[0] == 0:
+                keys.append('selected:{0,k}')
+            elif len(sel) == 2:
+                keys.append('selected:two')
+            else:
+                keys.append('selected:3+')
+    if case['template']: keys.append('ctx:template')
+    if not case['encoding']: keys.append('ctx:no-encoding')
+    if case['fuzzy']: keys.append('flag:fuzzy')
+    if case['range'] is not None: keys.append('flag:range')
+    if len(case['formats']) > 1: keys.append('flag:several-formats')
+    return keys
